@@ -260,7 +260,21 @@ async fn c15_actor_case(seed: u64, i: u64) -> CaseOut {
             shrank = true;
         }
         prev_members = members.clone();
+        // now and then the update meets a backlog: 150 selection requests are queued at the selector actor
+        // (more than its request queue of 100 holds) at the moment the new layout is handed over
+        let mut backlog = Vec::new();
+        if rng.gen_bool(0.15) {
+            for k in 0..150usize {
+                let mut f = Box::pin(sel.get_nodes(LEVELS[k % LEVELS.len()]));
+                let _ = futures::poll!(f.as_mut());
+                backlog.push(f);
+            }
+            out.count("layout_updates_that_met_a_backlog_of_selection_requests", 1);
+        }
         nv::set_nodes(&sel, dcs.clone()).await;
+        for f in backlog {
+            let _ = f.await; // (answers to requests issued before the update carry no claim)
+        }
         trace.push(json!({"set_nodes": dcs.iter().map(|(k, v)| (k.to_string(), v.iter().map(|a| a.to_string()).collect::<Vec<_>>())).collect::<BTreeMap<_, _>>()}));
         let mut levels = LEVELS.to_vec();
         levels.shuffle(&mut rng);
@@ -346,9 +360,22 @@ async fn c15_watcher_case(seed: u64, i: u64, prefix: &str) -> CaseOut {
             _ => "same snapshot again",
         };
         tx.send(to_membership(&members)).unwrap();
+        // now and then the watcher's hand-over of the new layout meets 150 queued selection requests
+        let mut backlog = Vec::new();
+        if rng.gen_bool(0.15) {
+            for k in 0..150usize {
+                let mut f = Box::pin(sel.get_nodes(LEVELS[k % LEVELS.len()]));
+                let _ = futures::poll!(f.as_mut());
+                backlog.push(f);
+            }
+            out.count("layout_updates_that_met_a_backlog_of_selection_requests", 1);
+        }
         if tokio::time::timeout(Duration::from_secs(5), probe.changed()).await.is_err() {
             out.inconclusive = Some("watcher did not publish a delta for a snapshot".into());
             return out;
+        }
+        for f in backlog {
+            let _ = f.await;
         }
         let _ = probe.borrow_and_update();
         trace.push(json!({"step": step, "change": what, "members": members.iter().map(|(id, (a, d))| json!([id, a.to_string(), format!("dc-{d}")])).collect::<Vec<_>>()}));
@@ -903,6 +930,26 @@ async fn c11_idle_case(seed: u64, r: u64) -> CaseOut {
             break;
         }
         last = t;
+        // a second remote stamp on EXACTLY the tick the clock now stands on (the injected wall does not move),
+        // with a counter above the clock's: registered, it must be exceeded by the next stamp as well
+        if rng.gen_bool(0.5) {
+            let same_tick = HLCTimestamp::new(last.datacake_timestamp(), last.counter().saturating_add(rng.gen_range(1..600)).min(60_000), node.wrapping_add(1 + rng.gen_range(0..50)));
+            if same_tick > last {
+                clock.register_ts(same_tick).await;
+                let t2 = clock.get_time().await;
+                out.count("registrations_on_the_clocks_own_tick_with_a_higher_counter", 1);
+                trace.push(json!({"step": step, "remote_on_the_clocks_own_tick": crate::crdt::ts_json(same_tick), "next_stamp": crate::crdt::ts_json(t2)}));
+                if t2 <= same_tick {
+                    out.violate("C11:stamp-not-greater-than-registered-remote:remote-on-the-clocks-own-tick", json!({"trace": trace}));
+                    break;
+                }
+                if t2 <= last {
+                    out.violate("C11:task-saw-non-increasing-stamps:after-an-idle-gap", json!({"previous": crate::crdt::ts_json(last), "trace": trace}));
+                    break;
+                }
+                last = t2;
+            }
+        }
     }
     out.nontrivial = Some(hash_of(&format!("{trace:?}")));
     if !out.violations.is_empty() {
